@@ -5,6 +5,7 @@ package log
 
 import (
 	"fmt"
+	"io"
 
 	"github.com/josephburnett/jd/v2/verif/simos"
 )
@@ -23,10 +24,15 @@ const (
 var (
 	flags  = LstdFlags
 	prefix = ""
+	// dest, when set with SetOutput, replaces the simulated stderr
+	dest io.Writer
 )
 
 // Reset restores the logger defaults (a fresh process has them).
-func init() { simos.OnArgs(func([]string) { flags, prefix = LstdFlags, "" }) }
+func init() { simos.OnArgs(func([]string) { flags, prefix, dest = LstdFlags, "", nil }) }
+
+// SetOutput sets the destination of the standard logger.
+func SetOutput(w io.Writer) { dest = w }
 
 func SetFlags(f int)     { flags = f }
 func Flags() int         { return flags }
@@ -39,7 +45,12 @@ func Prefix() string     { return prefix }
 func Output(calldepth int, s string) error { return output(s) }
 
 // Writer returns the destination of the standard logger.
-func Writer() *simos.Handle { return simos.HStderr }
+func Writer() io.Writer {
+	if dest != nil {
+		return dest
+	}
+	return simos.HStderr
+}
 
 func output(s string) error {
 	line := prefix
@@ -49,6 +60,10 @@ func output(s string) error {
 	line += s
 	if len(s) == 0 || s[len(s)-1] != '\n' {
 		line += "\n"
+	}
+	if dest != nil {
+		_, err := dest.Write([]byte(line))
+		return err
 	}
 	_, err := simos.HStderr.Write([]byte(line))
 	return err
